@@ -57,6 +57,12 @@ Context {T : Type} (O : Ops T).
 Definition trim {A} (d : dir) (ep : bool) (l : list A) : list A :=
   if ep then l else match d with Dpp => removelast l | _ => removelast (tl l) end.
 
+(** the same selection as a python slice [a : len-b] *)
+Definition trim_rows (d : dir) (ep : bool) : nat * nat :=
+  if ep then (0, 0)%nat else match d with Dpp => (0, 1)%nat | _ => (1, 1)%nat end.
+Definition pyslice {A} (ab : nat * nat) (l : list A) : list A :=
+  firstn (length l - fst ab - snd ab) (skipn (fst ab) l).
+
 (** changeBasis: tnMatrix[x, n] (Chebyshev -> Cardinal; its inverse the other way) *)
 Definition tnMatrix (d : dir) (ep : bool) (grid : list T) (M N : nat) : list (list T) :=
   let c := cfg_changeBasis d ep M N in
@@ -94,13 +100,15 @@ Definition derivMatrix (b : basis) (d : dir) (ep : bool) (grid : list T) : list 
 (** integrate: weights / pi for the nodes of getCompactCoordinates(endpoints, direction) *)
 Definition wdiv (d : dir) (M N : nat) : nat := match d with Dz => M | Dpz => N | Dpp => N - 1 end.
 Definition half (w : T) : T := odiv O w (otwo O).
+(* entries halved: weights[0] /= 2 (pp without end point); weights[0], weights[-1] with *)
+Definition int_halved (d : dir) (ep : bool) : list Z :=
+  if ep then [0%Z; (-1)%Z] else match d with Dpp => [0%Z] | _ => [] end.
+Definition pyidx (size : nat) (z : Z) : nat :=
+  if (z <? 0)%Z then Z.to_nat (Z.of_nat size + z) else Z.to_nat z.
 Definition intWeights (d : dir) (ep : bool) (size M N : nat) : list T :=
   let base := odiv O (o1 O) (onat O (wdiv d M N)) in
-  map (fun k =>
-         let w := base in
-         let w := match d with Dpp => if negb ep && (k =? 0)%nat then half w else w | _ => w end in
-         let w := if ep && (k =? 0)%nat then half w else w in
-         let w := if ep && (k =? size - 1)%nat then half w else w in w)
+  map (fun k => fold_right (fun z w => if (pyidx size z =? k)%nat then half w else w) base
+                           (int_halved d ep))
       (seq 0 size).
 (** (1 - x^2) * (weight/pi)^2 : the square of the factor multiplying the coefficients *)
 Definition intFactorSq (d : dir) (ep : bool) (grid : list T) (M N : nat) : list T :=
@@ -259,6 +267,19 @@ Proof.
 Qed.
 Lemma removelast_firstn {A} (l : list A) : removelast l = firstn (length l - 1) l.
 Proof. rewrite removelast_firstn_len. f_equal. lia. Qed.
+
+Lemma trim_pyslice {A} d ep (l : list A) : trim d ep l = pyslice (trim_rows d ep) l.
+Proof.
+  unfold trim, trim_rows, pyslice. destruct ep.
+  - cbn [fst snd skipn]. replace (length l - 0 - 0)%nat with (length l) by lia.
+    symmetry. apply firstn_all.
+  - destruct d; cbn [fst snd].
+    + destruct l as [|a t]; [reflexivity|]. cbn [tl skipn length]. rewrite removelast_firstn.
+      f_equal. lia.
+    + destruct l as [|a t]; [reflexivity|]. cbn [tl skipn length]. rewrite removelast_firstn.
+      f_equal. lia.
+    + cbn [skipn]. rewrite removelast_firstn. f_equal. lia.
+Qed.
 
 (** size of the complete grid of a direction *)
 Definition gsize (d : dir) (M N : nat) : nat :=
